@@ -22,8 +22,8 @@ def _ref_natsort(ids):
 
 # ids whose natural order differs from text order in every way the key function distinguishes: integer vs decimal chunks,
 # different integer widths, leading/trailing text, bare numbers (no numeric ties: those are resolved by input order)
-DECIMAL_IDS = ['d2', 'd9.5', 'd10', 'd10.5', 'd1.10', 'd1.9', '3', '2.5x', 'x', 'd', '10', '9.75',
-               'run9007199254740993_a', 'run9007199254740992_b']      # integers that differ below double precision
+DECIMAL_IDS = ['run9007199254740993_a', 'run9007199254740992_b',      # integers that differ below double precision
+               'd2', 'd9.5', 'd10', 'd10.5', 'd1.10', 'd1.9', '3', '2.5x', 'x', 'd', '10', '9.75']
 
 
 def _state(nr, nc, zeros=0, light=False):
